@@ -31,7 +31,7 @@ for d in sorted(glob.glob(SRC+'/*/*/patch.diff')):
     tag=os.environ.get('BENIGN_TAG','')
     out='/verif/benign_patches/%s%s/%s'%(area,tag,n)
     meta={'id':area+tag+'/'+n,'alarms':alarms,'accepted':not alarms}
-    if not alarms:
+    if not alarms and os.path.realpath(d)!=os.path.realpath(out):
         os.makedirs(out,exist_ok=True)
         shutil.copy(d+'/patch.diff',out+'/patch.diff')
         if os.path.exists(d+'/NOTES.md'): shutil.copy(d+'/NOTES.md',out+'/NOTES.md')
